@@ -367,8 +367,8 @@ def get_results(tier):
 # ------------------------------------------------------------------ replay against the real crate
 REPLAY = os.path.join(BUILD, "replay-target", "release", "replay")
 SCENARIOS = {"take": ["take1", "take2", "take0"], "map": ["map"], "filter": ["filter"], "scan": ["scan"], "skip": ["skip1"], "from_iter": ["from_iter"],
-             "concat": ["concat2", "concat3"], "concat0": ["concat0"], "flatten": ["flatten"], "merge": ["merge2", "merge3"], "mergeL": ["merge2L"],
-             "combine1": ["combine2"], "combine2": ["combine2"], "combine3": ["combine2"], "share": ["share2", "share3"]}
+             "concat": ["concat2", "concat3"], "concat0": ["concat0"], "flatten": ["flatten"], "merge": ["merge2", "merge3", "merge2X"],
+             "combine1": ["combine2"], "combine2": ["combine2", "combine2X"], "combine3": ["combine2", "combine2X"], "share": ["share2", "share3"]}
 
 
 def build_replay():
@@ -403,9 +403,18 @@ def replay_run(scenario, tape):
 def replay_search(template, pid, secs=90):
     if not build_replay():
         return None
-    for sc in SCENARIOS.get(template, []):
+    # histories of listed findings are not new violations
+    excl = []
+    for f in load_findings().get("findings", []):
+        if f.get("replay") and f["replay"]["scenario"].rstrip("LX") in [x.rstrip("LX") for x in SCENARIOS.get(template, [])] and f.get("property") == pid:
+            for x in f.get("excludes", [f["replay"]["expect"]]):
+                excl += ["--exclude", x]
+    scs = list(SCENARIOS.get(template, []))
+    if template == "merge" and pid == "C01":
+        scs.append("merge2L")   # late greeters are in C01's quantifier; for the other properties they only reproduce finding F5
+    for sc in scs:
         try:
-            p = subprocess.run([REPLAY, "search", sc, "--property", pid, "--len", "10", "--budget", "1500000"], capture_output=True, text=True, timeout=secs)
+            p = subprocess.run([REPLAY, "search", sc, "--property", pid, "--len", "10", "--budget", "1500000"] + excl, capture_output=True, text=True, timeout=secs)
             d = json.loads(p.stdout)
         except Exception:
             continue
